@@ -726,7 +726,9 @@ pub(crate) fn solve_expression(
                     if let Expression::Match(Match::All, expression) = &**e {
                         if let Expression::BooleanGroup(BoolSym::Or, expressions) = &**expression {
                             for expression in expressions {
-                                let mut res = SolverResult::Missing;
+                                // NOTE: As for any other block, an array without a satisfying
+                                // member is false, never missing.
+                                let mut res = SolverResult::False;
                                 for v in a.iter() {
                                     if let Some(x) = v.as_object() {
                                         match solve_expression(expression, identifiers, &x) {
@@ -749,7 +751,7 @@ pub(crate) fn solve_expression(
                             // matrix here as we have to loop through the array! For that reason we
                             // basically null this optimisation...
                             for row in rows {
-                                let mut res = SolverResult::Missing;
+                                let mut res = SolverResult::False;
                                 for v in a.iter() {
                                     let mut hit = SolverResult::True;
                                     for (i, expression) in row.iter().enumerate() {
